@@ -5,6 +5,11 @@ From Coq Require Import ZArith Bool List.
 Local Open Scope Z_scope.
 
 Definition W : Z := 18446744073709551616.  (* 2^64: one limb *)
+(* reduction of a machine word and its overflow part, written with land/shiftr so that the extracted
+   code is linear in the word size (ProofsBase: modW x = x mod W, divW x = x / W) *)
+Definition Wm1 : Z := 18446744073709551615.
+Definition modW (x : Z) : Z := Z.land x Wm1.
+Definition divW (x : Z) : Z := Z.shiftr x 64.
 
 (* ruint<6+k>: k = 0 is a limb (invariant 0 <= . < W), k+1 is (Low, High) *)
 Fixpoint ru (k : nat) : Type :=
@@ -32,14 +37,14 @@ Definition b2z (b : bool) : Z := if b then 1 else 0.
 (* ---- limb primitives (reclonglong.h macros, plain-C variants: NO_ASM) ---- *)
 (* recint_add_ssaaaa(sh,sl,ah,al,bh,bl) *)
 Definition add_ssaaaa (ah al bh bl : Z) : Z * Z :=
-  let x := (al + bl) mod W in
-  ((ah + bh + b2z (x <? al)) mod W, x).
+  let x := modW (al + bl) in
+  (modW (ah + bh + b2z (x <? al)), x).
 (* recint_sub_ddmmss *)
 Definition sub_ddmmss (ah al bh bl : Z) : Z * Z :=
-  let x := (al - bl) mod W in
-  ((ah - bh - b2z (al <? bl)) mod W, x).
+  let x := modW (al - bl) in
+  (modW (ah - bh - b2z (al <? bl)), x).
 (* recint_umul_ppmm(ph,pl,a,b): double-limb product *)
-Definition umul_ppmm (a b : Z) : Z * Z := ((a * b) / W, (a * b) mod W).
+Definition umul_ppmm (a b : Z) : Z * Z := (divW (a * b), modW (a * b)).
 
 (* ---- rucmp.h ---- *)
 Fixpoint cmp (k : nat) : ru k -> ru k -> Z :=
@@ -58,8 +63,8 @@ Definition eqb k a b := cmp k a b =? 0.
 Fixpoint add_wc (k : nat) : ru k -> ru k -> bool -> ru k * bool :=
   match k return ru k -> ru k -> bool -> ru k * bool with
   | O => fun b c cy =>
-      let a := (b + c) mod W in
-      if cy then let a' := (a + 1) mod W in (a', a' <=? b) else (a, a <? b)
+      let a := modW (b + c) in
+      if cy then let a' := modW (a + 1) in (a', a' <=? b) else (a, a <? b)
   | S k' =>
       match k' return (ru k' -> ru k' -> bool -> ru k' * bool) -> ru (S k') -> ru (S k') -> bool -> ru (S k') * bool with
       | O => fun _ b c cy =>                                  (* ruint<7>: recint_add_ssaaaa *)
@@ -78,7 +83,7 @@ Fixpoint add_wc (k : nat) : ru k -> ru k -> bool -> ru k * bool :=
 (* add(r, a, b, c): a = b + c, r = carry *)
 Fixpoint add_c (k : nat) : ru k -> ru k -> ru k * bool :=
   match k return ru k -> ru k -> ru k * bool with
-  | O => fun b c => let a := (b + c) mod W in (a, a <? b)
+  | O => fun b c => let a := modW (b + c) in (a, a <? b)
   | S k' =>
       match k' return (ru k' -> ru k' -> ru k' * bool) -> ru (S k') -> ru (S k') -> ru (S k') * bool with
       | O => fun _ b c =>
@@ -94,7 +99,7 @@ Fixpoint add_c (k : nat) : ru k -> ru k -> ru k * bool :=
 (* add(r, a, b, T c) with an arithmetic word c (also used for bool carries: add(r, a.High, rl)) *)
 Fixpoint add_w (k : nat) : ru k -> Z -> ru k * bool :=
   match k return ru k -> Z -> ru k * bool with
-  | O => fun b c => let a := (b + c) mod W in (a, a <? c)
+  | O => fun b c => let a := modW (b + c) in (a, a <? c)
   | S k' =>
       match k' return (ru k' -> Z -> ru k' * bool) -> ru (S k') -> Z -> ru (S k') * bool with
       | O => fun _ b c =>
@@ -111,7 +116,7 @@ Fixpoint add_w (k : nat) : ru k -> Z -> ru k * bool :=
 (* add_1(r, a): a += 1 (in-place form: add_1(rl, a.Low); add(r, a.High, rl)) *)
 Fixpoint add_1 (k : nat) : ru k -> ru k * bool :=
   match k return ru k -> ru k * bool with
-  | O => fun b => let a := (b + 1) mod W in (a, a =? 0)
+  | O => fun b => let a := modW (b + 1) in (a, a =? 0)
   | S k' =>
       match k' return (ru k' -> ru k' * bool) -> ru (S k') -> ru (S k') * bool with
       | O => fun _ b =>
@@ -129,7 +134,7 @@ Fixpoint add_1 (k : nat) : ru k -> ru k * bool :=
 Fixpoint sub_wc (k : nat) : ru k -> ru k -> bool -> ru k * bool :=
   match k return ru k -> ru k -> bool -> ru k * bool with
   | O => fun b c cy =>
-      if cy then ((b - c - 1) mod W, b <=? c) else ((b - c) mod W, b <? c)
+      if cy then (modW (b - c - 1), b <=? c) else (modW (b - c), b <? c)
   | S k' =>
       match k' return (ru k' -> ru k' -> bool -> ru k' * bool) -> ru (S k') -> ru (S k') -> bool -> ru (S k') * bool with
       | O => fun _ b c cy =>
@@ -148,7 +153,7 @@ Fixpoint sub_wc (k : nat) : ru k -> ru k -> bool -> ru k * bool :=
 (* sub(r, a, b, c): a = b - c, r = borrow *)
 Fixpoint sub_c (k : nat) : ru k -> ru k -> ru k * bool :=
   match k return ru k -> ru k -> ru k * bool with
-  | O => fun b c => ((b - c) mod W, b <? c)
+  | O => fun b c => (modW (b - c), b <? c)
   | S k' =>
       match k' return (ru k' -> ru k' -> ru k' * bool) -> ru (S k') -> ru (S k') -> ru (S k') * bool with
       | O => fun _ b c =>
@@ -292,7 +297,7 @@ Definition lmul_kara (thr : nat) (k : nat) : ru k -> ru k -> ru k * ru k :=
 (* mul(a, b, c): truncated product; addmul(a, b, c): a += b*c *)
 Fixpoint mul (thr : nat) (k : nat) : ru k -> ru k -> ru k :=
   match k return ru k -> ru k -> ru k with
-  | O => fun b c => (b * c) mod W
+  | O => fun b c => modW (b * c)
   | S k' => fun b c =>
       let bcmid := mul thr k' (fst b) (snd c) in
       let bcmid := fst (add_c k' bcmid (mul thr k' (snd b) (fst c))) in     (* addmul(bcmid, b.High, c.Low) *)
@@ -302,23 +307,533 @@ Fixpoint mul (thr : nat) (k : nat) : ru k -> ru k -> ru k :=
 
 Definition addmul (thr : nat) (k : nat) (a b c : ru k) : ru k :=
   match k return ru k -> ru k -> ru k -> ru k with
-  | O => fun a b c => (a + b * c) mod W
+  | O => fun a b c => modW (a + b * c)
   | S k' => fun a b c => fst (add_c (S k') a (mul thr (S k') b c))
   end a b c.
 
+
+(* ---- rusub.h: word subtrahend, decrement ---- *)
+(* sub(r, a, b, T c) *)
+Fixpoint sub_w (k : nat) : ru k -> Z -> ru k * bool :=
+  match k return ru k -> Z -> ru k * bool with
+  | O => fun b c => (modW (b - c), b <? c)
+  | S k' =>
+      match k' return (ru k' -> Z -> ru k' * bool) -> ru (S k') -> Z -> ru (S k') * bool with
+      | O => fun _ b c =>
+          let '(h, l) := sub_ddmmss (snd b) (fst b) 0 c in
+          (* r = (b < c) : ruint<7> against a word *)
+          ((l, h) : ru 1, if snd b =? 0 then fst b <? c else false)
+      | S k'' => fun rec b c =>
+          let '(lo, r1) := rec (fst b) c in
+          let '(hi, r2) := rec (snd b) (b2z r1) in
+          ((lo, hi), r2)
+      end (sub_w k')
+  end.
+
+(* sub_1(r, a, b) *)
+Fixpoint sub_1 (k : nat) : ru k -> ru k * bool :=
+  match k return ru k -> ru k * bool with
+  | O => fun b => (modW (b - 1), b =? 0)
+  | S k' =>
+      match k' return (ru k' -> ru k' * bool) -> ru (S k') -> ru (S k') * bool with
+      | O => fun _ b =>
+          let '(h, l) := sub_ddmmss (snd b) (fst b) 0 1 in
+          ((l, h) : ru 1, (snd b =? 0) && (fst b =? 0))
+      | S k'' => fun rec b =>
+          let '(lo, r1) := rec (fst b) in
+          let '(hi, r2) := sub_w (S k'') (snd b) (b2z r1) in
+          ((lo, hi), r2)
+      end (sub_1 k')
+  end.
+
+(* ---- rumanip.h / rufiddling.h ---- *)
+Fixpoint nbits (k : nat) : Z := match k with O => 64 | S k' => 2 * nbits k' end.    (* NBBITS<K> *)
+Fixpoint nlimbs (k : nat) : Z := match k with O => 1 | S k' => 2 * nlimbs k' end.   (* NBLIMB<K> *)
+
+Fixpoint ones (k : nat) : ru k :=                                   (* fill_with_1 *)
+  match k return ru k with O => Wm1 | S k' => (ones k', ones k') end.
+Fixpoint is_zero (k : nat) : ru k -> bool :=                        (* a == 0 *)
+  match k return ru k -> bool with
+  | O => fun a => a =? 0
+  | S k' => fun a => is_zero k' (snd a) && is_zero k' (fst a)
+  end.
+Fixpoint lnot (k : nat) : ru k -> ru k :=                           (* operator~ *)
+  match k return ru k -> ru k with
+  | O => fun c => Z.lxor c Wm1
+  | S k' => fun c => (lnot k' (fst c), lnot k' (snd c))
+  end.
+Definition neg (k : nat) (c : ru k) : ru k := fst (add_1 k (lnot k c)).   (* r = ~c; ++r *)
+Section Bitwise.
+  Variable f : Z -> Z -> Z.
+  Fixpoint bitop (k : nat) : ru k -> ru k -> ru k :=
+    match k return ru k -> ru k -> ru k with
+    | O => fun b c => f b c
+    | S k' => fun b c => (bitop k' (fst b) (fst c), bitop k' (snd b) (snd c))
+    end.
+  (* b op= (T)c for |= and ^= : only the lowest limb is touched *)
+  Fixpoint bitop_w (k : nat) : ru k -> Z -> ru k :=
+    match k return ru k -> Z -> ru k with
+    | O => fun b c => f b c
+    | S k' => fun b c => (bitop_w k' (fst b) c, snd b)
+    end.
+End Bitwise.
+Definition lor_ := bitop Z.lor.
+Definition lxor_ := bitop Z.lxor.
+Definition land_ := bitop Z.land.
+(* b &= (T)c : reset(b.High); b.Low &= c *)
+Fixpoint land_w (k : nat) : ru k -> Z -> ru k :=
+  match k return ru k -> Z -> ru k with
+  | O => fun b c => Z.land b c
+  | S k' => fun b c => (land_w k' (fst b) c, zero k')
+  end.
+Fixpoint highest_bit (k : nat) : ru k -> bool :=
+  match k return ru k -> bool with
+  | O => fun a => 9223372036854775808 <=? a
+  | S k' => fun a => highest_bit k' (snd a)
+  end.
+Fixpoint lowest_bit (k : nat) : ru k -> bool :=
+  match k return ru k -> bool with
+  | O => fun a => Z.odd a
+  | S k' => fun a => lowest_bit k' (fst a)
+  end.
+Fixpoint set_highest_bit (k : nat) : ru k -> ru k :=
+  match k return ru k -> ru k with
+  | O => fun a => Z.lor a 9223372036854775808
+  | S k' => fun a => (fst a, set_highest_bit k' (snd a))
+  end.
+Fixpoint set_lowest_bit (k : nat) : ru k -> ru k :=
+  match k return ru k -> ru k with
+  | O => fun a => Z.lor a 1
+  | S k' => fun a => (set_lowest_bit k' (fst a), snd a)
+  end.
+Fixpoint max_pow_two (k : nat) : ru k :=
+  match k return ru k with O => 9223372036854775808 | S k' => (zero k', max_pow_two k') end.
+Fixpoint set_limb (k : nat) : ru k -> Z -> Z -> ru k :=
+  match k return ru k -> Z -> Z -> ru k with
+  | O => fun a l idx => if idx =? 0 then l else a
+  | S k' => fun a l idx =>
+      if idx <? nlimbs k' then (set_limb k' (fst a) l idx, snd a)
+      else (fst a, set_limb k' (snd a) l (idx - nlimbs k'))
+  end.
+Fixpoint get_limb (k : nat) : ru k -> Z -> Z :=
+  match k return ru k -> Z -> Z with
+  | O => fun a _ => a
+  | S k' => fun a idx => if idx <? nlimbs k' then get_limb k' (fst a) idx else get_limb k' (snd a) (idx - nlimbs k')
+  end.
+
+(* ---- rushift.h ---- *)
+(* left_shift_1(z, b, a) / right_shift_1(z, b, a): (b, lost bit) *)
+Fixpoint shl1 (k : nat) : ru k -> ru k * bool :=
+  match k return ru k -> ru k * bool with
+  | O => fun a => (modW (2 * a), 9223372036854775808 <=? a)
+  | S k' => fun a =>
+      let '(h, z) := shl1 k' (snd a) in
+      let '(l, zl) := shl1 k' (fst a) in
+      ((l, if zl then set_lowest_bit k' h else h), z)
+  end.
+Fixpoint shr1 (k : nat) : ru k -> ru k * bool :=
+  match k return ru k -> ru k * bool with
+  | O => fun a => (Z.shiftr a 1, Z.odd a)
+  | S k' => fun a =>
+      let '(h, zh) := shr1 k' (snd a) in
+      let '(l, z) := shr1 k' (fst a) in
+      ((if zh then set_highest_bit k' l else l, h), z)
+  end.
+
+(* left_shift(b, a, d) and right_shift(b, a, d), d a non-negative count of a type wide enough for NBBITS<K>.
+   Both in one Fixpoint (each calls the other on the half size): fst = left, snd = right. *)
+Definition shl_limb (a d : Z) : Z := if d =? 0 then a else if d <? 64 then modW (Z.shiftl a d) else 0.
+Definition shr_limb (a d : Z) : Z := if d =? 0 then a else if d <? 64 then Z.shiftr a d else 0.
+Fixpoint shifts (k : nat) : (ru k -> Z -> ru k) * (ru k -> Z -> ru k) :=
+  match k return (ru k -> Z -> ru k) * (ru k -> Z -> ru k) with
+  | O => (shl_limb, shr_limb)
+  | S k' =>
+      let shl' := fst (shifts k') in
+      let shr' := snd (shifts k') in
+      let nb := nbits k' in
+      (fun a d =>
+         if d =? 0 then a
+         else if d =? 1 then fst (shl1 (S k') a)
+         else if 2 * nb <? d then zero (S k')
+         else if d <? nb then (shl' (fst a) d, lor_ k' (shr' (fst a) (nb - d)) (shl' (snd a) d))
+         else if nb <? d then (zero k', shl' (fst a) (d - nb))
+         else (zero k', fst a),
+       fun a d =>
+         if d =? 0 then a
+         else if d =? 1 then fst (shr1 (S k') a)
+         else if 2 * nb <? d then zero (S k')
+         else if d <? nb then (lor_ k' (shl' (snd a) (nb - d)) (shr' (fst a) d), shr' (snd a) d)
+         else if nb <? d then (shr' (snd a) (d - nb), zero k')
+         else (snd a, zero k'))
+  end.
+Definition left_shift (k : nat) := fst (shifts k).
+Definition right_shift (k : nat) := snd (shifts k).
+(* internal left_shift(ruint<K+1>& b, const ruint<K>& a, d) *)
+Definition left_shift_ext (k : nat) (a : ru k) (d : Z) : ru (S k) :=
+  let nb := nbits k in
+  if d =? 0 then (a, zero k)
+  else if 2 * nb <? d then zero (S k)
+  else if d <? nb then (left_shift k a d, right_shift k a (nb - d))
+  else if nb <? d then (zero k, left_shift k a (d - nb))
+  else (zero k, a).
+
+(* ---- rutools.h: normalization(d, b) = number of leading zero bits ---- *)
+Definition clz64 (x : Z) : Z := if x =? 0 then 64 else 63 - Z.log2 x.
+Fixpoint normalization (k : nat) : ru k -> Z :=
+  match k return ru k -> Z with
+  | O => fun b => clz64 b
+  | S k' => fun b => if is_zero k' (snd b) then nbits k' + normalization k' (fst b) else normalization k' (snd b)
+  end.
+
+(* ---- reclonglong.h: __recint_udiv_qrnnd_c (NO_ASM), half-limb base 2^32 ---- *)
+Definition HB : Z := 4294967296.
+Definition udiv_half (r np d d1 d0 : Z) : Z * Z :=
+  let q := r / d1 in
+  let r1 := modW (r - q * d1) in
+  let m := modW (q * d0) in
+  let r1 := Z.lor (modW (r1 * HB)) np in
+  let '(q, r1) :=
+    if r1 <? m then
+      let q' := modW (q - 1) in
+      let r' := modW (r1 + d) in
+      if (d <=? r') && (r' <? m) then (modW (q' - 1), modW (r' + d)) else (q', r')
+    else (q, r1) in
+  (q, modW (r1 - m)).
+Definition udiv_qrnnd (n1 n0 d : Z) : Z * Z :=                         (* (q, r) *)
+  let d1 := Z.shiftr d 32 in
+  let d0 := Z.land d (HB - 1) in
+  let '(q1, r1) := udiv_half n1 (Z.shiftr n0 32) d d1 d0 in
+  let '(q0, r0) := udiv_half r1 (Z.land n0 (HB - 1)) d d1 d0 in
+  (Z.lor (modW (q1 * HB)) q0, r0).
+
+(* ---- rudiv.h ---- *)
+(* div_3_2 for ruint<6>: (q, r1, r0) *)
+Definition div32_0 (a2 a1 a0 b1 b0 : Z) : Z * Z * Z :=
+  let '(q, c, ret) :=
+    if a2 <? b1 then let '(q, c) := udiv_qrnnd a2 a1 b1 in (q, c, false)
+    else let c := modW (a1 + b1) in (Wm1, c, c <? a1) in
+  let '(d1, d0) := umul_ppmm q b0 in
+  let '(r1, r0) := sub_ddmmss c a0 d1 d0 in
+  if negb ret && ((c <? d1) || ((d1 =? c) && (a0 <? d0))) then
+    let q := modW (q - 1) in
+    let r0 := modW (r0 + b0) in
+    let r1 := modW (r1 + b1) in
+    let r1 := if r0 <? b0 then modW (r1 + 1) else r1 in
+    if (b1 <? r1) || ((r1 =? b1) && (b0 <=? r0)) then
+      let q := modW (q - 1) in
+      let r0 := modW (r0 + b0) in
+      let r1 := modW (r1 + b1) in
+      let r1 := if r0 <? b0 then modW (r1 + 1) else r1 in
+      (q, r1, r0)
+    else (q, r1, r0)
+  else (q, r1, r0).
+
+Section DivRec.
+  Variable k : nat.
+  Variable lmul_k : ru k -> ru k -> ru k * ru k.                      (* lmul<K>: (al, ah) *)
+  Variable div21_k : ru k -> ru k -> ru k -> ru k * ru k.             (* div_2_1<K>(q, r, ah, al, b): (q, r) *)
+  (* generic div_3_2<K> *)
+  Definition div32_step (a2 a1 a0 b1 b0 : ru k) : ru k * ru k * ru k :=
+    let '(q, c, ret1) :=
+      if lt k a2 b1 then let '(q, c) := div21_k a2 a1 b1 in (q, c, false)
+      else let '(c, r) := add_c k a1 b1 in (ones k, c, r) in
+    let '(d0, d1) := lmul_k q b0 in
+    let '(r0, ret_sub) := sub_c k a0 d0 in
+    let '(r1, _) := sub_wc k c d1 ret_sub in
+    if negb ret1 && (lt k c d1 || (eqb k d1 c && lt k a0 d0)) then
+      let q := fst (sub_1 k q) in
+      let '(r0, rs) := add_c k r0 b0 in
+      let '(r1, ret) := add_wc k r1 b1 rs in
+      if negb ret then
+        let q := fst (sub_1 k q) in
+        let '(r0, rs) := add_c k r0 b0 in
+        let '(r1, _) := add_wc k r1 b1 rs in
+        (q, r1, r0)
+      else (q, r1, r0)
+    else (q, r1, r0).
+End DivRec.
+(* generic div_2_1<K+1> from div_3_2<K> *)
+Definition div21_step (k : nat) (d32 : ru k -> ru k -> ru k -> ru k -> ru k -> ru k * ru k * ru k)
+           (ah al b : ru (S k)) : ru (S k) * ru (S k) :=
+  let '(qh, s1, s0) := d32 (snd ah) (fst ah) (snd al) (snd b) (fst b) in
+  let '(ql, r1, r0) := d32 s1 s0 (fst al) (snd b) (fst b) in
+  ((ql, qh), (r0, r1)).
+Fixpoint div32 (thr : nat) (k : nat) : ru k -> ru k -> ru k -> ru k -> ru k -> ru k * ru k * ru k :=
+  match k return ru k -> ru k -> ru k -> ru k -> ru k -> ru k * ru k * ru k with
+  | O => div32_0
+  | S k' => div32_step (S k') (lmul thr (S k')) (div21_step k' (div32 thr k'))
+  end.
+Definition div21 (thr : nat) (k : nat) : ru k -> ru k -> ru k -> ru k * ru k :=
+  match k return ru k -> ru k -> ru k -> ru k * ru k with
+  | O => udiv_qrnnd
+  | S k' => div21_step k' (div32 thr k')
+  end.
+(* div(q, r, a, b): normalisation, div_2_1, un-normalisation.  ruint<6> is a/b, a%b. *)
+Definition div (thr : nat) (k : nat) : ru k -> ru k -> ru k * ru k :=
+  match k return ru k -> ru k -> ru k * ru k with
+  | O => fun a b => (a / b, a mod b)
+  | S k' => fun a b =>
+      let d := normalization (S k') b in
+      let aa := left_shift_ext (S k') a d in
+      let bb := left_shift (S k') b d in
+      let '(q, r) := div21 thr (S k') (snd aa) (fst aa) bb in
+      (q, right_shift (S k') r d)
+  end.
+(* div(q, T& r, a, T b) *)
+Definition div_w (thr : nat) (k : nat) (a : ru k) (b : Z) : ru k * Z :=
+  if b =? 2 then let '(q, z) := shr1 k a in (q, b2z z)
+  else let '(q, r) := div thr k a (of_Z k b) in (q, val k r mod W).
+(* mod_n(a, b : ruint<K+1>, n) *)
+Definition mod_n (thr : nat) (k : nat) (b : ru (S k)) (n : ru k) : ru k :=
+  let d := normalization k n in
+  let bb := left_shift_ext (S k) b d in
+  let nn := left_shift k n d in
+  let '(_, r) := div21 thr k (fst (snd bb)) (snd (fst bb)) nn in
+  let '(_, a) := div21 thr k r (fst (fst bb)) nn in
+  right_shift k a d.
+
+(* ---- rumul.h: word multiplier, squares ---- *)
+(* lmul(limb& ret, a, b, T c): (a, ret) *)
+Fixpoint lmul_w (k : nat) : ru k -> Z -> ru k * Z :=
+  match k return ru k -> Z -> ru k * Z with
+  | O => fun b c => let '(h, l) := umul_ppmm b c in (l, h)
+  | S k' => fun b c =>
+      let '(al, retl) := lmul_w k' (fst b) c in
+      let '(ah, ret) := lmul_w k' (snd b) c in
+      let '(ah, rt) := add_w k' ah retl in
+      ((al, ah), modW (ret + b2z rt))
+  end.
+(* lsquare(a : ruint<K+1>, b): a as (Low, High) *)
+Fixpoint lsquare (thr : nat) (k : nat) : ru k -> ru k * ru k :=
+  match k return ru k -> ru k * ru k with
+  | O => fun b => lmul0 b b
+  | S k' => fun b =>
+      let bhbl : ru (S k') := lmul thr k' (snd b) (fst b) in
+      let ah : ru (S k') := lsquare thr k' (snd b) in
+      let al : ru (S k') := lsquare thr k' (fst b) in
+      let rbb := highest_bit (S k') bhbl in
+      let bhbl := fst (shl1 (S k') bhbl) in
+      let '(al_hi, ralb) := add_c k' (snd al) (fst bhbl) in
+      let '(ah_lo, rbah) := add_c k' (fst ah) (snd bhbl) in
+      let ah : ru (S k') := (ah_lo, snd ah) in
+      let ah : ru (S k') := if ralb then fst (add_1 (S k') ah) else ah in
+      let ah : ru (S k') := if rbah || rbb then (fst ah, fst (add_w k' (snd ah) (b2z rbah + b2z rbb))) else ah in
+      ((fst al, al_hi), ah)
+  end.
+Definition square (thr : nat) (k : nat) : ru k -> ru k :=
+  match k return ru k -> ru k with
+  | O => fun b => modW (b * b)
+  | S k' => fun b =>
+      let bhbll := mul thr k' (snd b) (fst b) in
+      let al : ru (S k') := lsquare thr k' (fst b) in
+      let bhbll := fst (shl1 k' bhbll) in
+      (fst al, fst (add_c k' (snd al) bhbll))
+  end.
+
+(* ---- rugcd.h, ruinvmod.h, ruexp.h: loops on explicit fuel ---- *)
+Definition ge (k : nat) (a b : ru k) : bool := 0 <=? cmp k a b.
+Fixpoint gcd_loop (thr k : nat) (fuel : nat) (c d : ru k) : ru k :=
+  match fuel with
+  | O => c
+  | S f => if is_zero k d then c else let '(_, r) := div thr k c d in gcd_loop thr k f d r
+  end.
+Definition euclid_fuel (k : nat) : nat := Z.to_nat (2 * nbits k + 2).
+Definition gcd (thr k : nat) (a b : ru k) : ru k := gcd_loop thr k (euclid_fuel k) a b.
+
+(* one update  x(i+1) = x(i-1) - q x(i) mod m  as the code computes it; negc is the operand of "temp = -temp" *)
+Definition bezout_update (thr k : nat) (q x last m negc : ru k) : ru k :=
+  let temp := mod_n thr k (lmul thr k q x) m in
+  let temp := if is_zero k temp then temp else fst (sub_c k negc temp) in
+  let '(temp, ret) := add_c k temp last in
+  if ret || ge k temp m then fst (sub_c k temp m) else temp.
+Fixpoint inv_mod_loop (thr k : nat) (fuel : nat) (a x a2 b2 c : ru k) : ru k :=
+  match fuel with
+  | O => a
+  | S f =>
+      if is_zero k b2 then a
+      else let '(q, r) := div thr k a2 b2 in
+           inv_mod_loop thr k f x (bezout_update thr k q x a c c) b2 r c
+  end.
+Definition inv_mod (thr k : nat) (b c : ru k) : ru k :=
+  inv_mod_loop thr k (euclid_fuel k) (of_Z k 1) (zero k) b c c.
+(* bezout_mod(lastx, lasty, c, d): (lastx, lasty) *)
+Fixpoint bezout_loop (thr k : nat) (fuel : nat) (lastx x lasty y a b c d : ru k) : ru k * ru k :=
+  match fuel with
+  | O => (lastx, lasty)
+  | S f =>
+      if is_zero k b then (lastx, lasty)
+      else let '(q, r) := div thr k a b in
+           bezout_loop thr k f x (bezout_update thr k q x lastx d d) y (bezout_update thr k q y lasty c c) b r c d
+  end.
+Definition bezout_mod (thr k : nat) (c d : ru k) : ru k * ru k :=
+  bezout_loop thr k (euclid_fuel k) (of_Z k 1) (zero k) (zero k) (of_Z k 1) c d c d.
+
+(* exp_mod(a, b, c, n): all nb bits of the exponent are scanned, lowest first *)
+Fixpoint exp_loop (thr k : nat) (fuel : nat) (i : Z) (cz : Z) (a x n : ru k) : ru k :=
+  match fuel with
+  | O => a
+  | S f =>
+      let a := if Z.testbit cz i then mod_n thr k (lmul thr k a x) n else a in
+      let x := mod_n thr k (lsquare thr k x) n in
+      exp_loop thr k f (i + 1) cz a x n
+  end.
+Definition exp_mod (thr k : nat) (b c n : ru k) : ru k :=
+  exp_loop thr k (Z.to_nat (nbits k)) 0 (val k c) (of_Z k 1) b n.
+(* exp_mod with an unsigned 64-bit exponent *)
+Definition exp_mod_w (thr k : nat) (b : ru k) (c : Z) (n : ru k) : ru k :=
+  exp_loop thr k 64%nat 0 c (of_Z k 1) b n.
+
+(* ---- rmgmodule.h: Arazi-Qi inverse modulo 2^(2^K) ---- *)
+Definition arazi0 (a : Z) : Z :=
+  if a =? 1 then 1
+  else
+    let step (s : Z * Z) := let am := modW (fst s * fst s) in (am, modW (snd s * modW (am + 1))) in
+    let s := step (step (step (step (step (modW (a - 1), 1))))) in      (* i = 2, 4, 8, 16, 32 *)
+    modW (snd s * modW (2 - a)).
+Fixpoint arazi_qi (thr : nat) (k : nat) : ru k -> ru k :=
+  match k return ru k -> ru k with
+  | O => arazi0
+  | S k' => fun a =>
+      let ul := arazi_qi thr k' (fst a) in
+      let t1 := snd (lmul thr k' ul (fst a)) in          (* lmul(t1, t2, u.Low, a.Low): t1 = high part *)
+      let t2 := mul thr k' ul (snd a) in
+      let t1 := fst (add_c k' t1 t2) in
+      let t1 := mul thr k' t1 ul in
+      (ul, neg k' t1)
+  end.
+
+(* ---- ruconvert.h / rconvert.h ---- *)
+(* mpz_to_ruint: for (i = 0; i < NBLIMB; i++) { l = c.get_ui(); set_limb(a, l, i); c >>= 64; } *)
+Fixpoint mpz_to_ruint_loop (k : nat) (n : nat) (i : Z) (c : Z) (a : ru k) : ru k :=
+  match n with
+  | O => a
+  | S n' => mpz_to_ruint_loop k n' (i + 1) (Z.shiftr c 64) (set_limb k a (modW (Z.abs c)) i)
+  end.
+Definition mpz_to_ruint (k : nat) (b : Z) : ru k := mpz_to_ruint_loop k (Z.to_nat (nlimbs k)) 0 b (zero k).
+Definition is_neg (k : nat) (a : ru k) : bool := highest_bit k a.
+Definition mpz_to_rint (k : nat) (b : Z) : ru k :=
+  if b <? 0 then neg k (mpz_to_ruint k (- b)) else mpz_to_ruint k b.
+Definition rint_to_mpz (k : nat) (a : ru k) : Z :=
+  if is_neg k a then - val k (neg k a) else val k a.
+
+(* ---- signed rint<K> (a rint is stored as a ruint): rdiv.h, rmul.h, rcmp.h, rrint.h ---- *)
+Definition sdiv_q (thr k : nat) (a b : ru k) : ru k :=
+  if is_neg k a then
+    if is_neg k b then fst (div thr k (neg k a) (neg k b))
+    else neg k (fst (div thr k (neg k a) b))
+  else
+    if is_neg k b then neg k (fst (div thr k a (neg k b)))
+    else fst (div thr k a b).
+Definition sdiv_r (thr k : nat) (a b : ru k) : ru k :=
+  if is_neg k a then neg k (snd (div thr k (neg k a) b)) else snd (div thr k a b).
+Definition slmul (thr k : nat) (b c : ru k) : ru (S k) :=
+  let p (x y : ru k) : ru (S k) := lmul thr k x y in
+  if is_neg k b then
+    if is_neg k c then p (neg k b) (neg k c) else neg (S k) (p (neg k b) c)
+  else
+    if is_neg k c then neg (S k) (p b (neg k c)) else p b c.
+(* lsquare(rint<K+1>& a, const rint<K>& b): REPAIRED behaviour (frag/C06.fix-3.diff): the square of |b|;
+   the code before the repair squares the raw bit pattern, which is wrong for b < 0 *)
+Definition slsquare (thr k : nat) (b : ru k) : ru (S k) :=
+  let p : ru (S k) := lsquare thr k (if is_neg k b then neg k b else b) in p.
+Definition scmp (k : nat) (a b : ru k) : Z :=
+  let pa := if is_neg k a then -1 else 1 in
+  let pb := if is_neg k b then -1 else 1 in
+  if pa =? pb then cmp k a b else pa.
+(* rint(const rint<K-1>& rl): sign extension *)
+Definition sext (k : nat) (rl : ru k) : ru (S k) :=
+  if is_neg k rl then neg (S k) (neg k rl, zero k) else (rl, zero k).
+Definition smod_n (thr k : nat) (b : ru (S k)) (c : ru k) : ru k :=
+  if is_neg (S k) b then
+    let a := mod_n thr k (neg (S k) b) c in
+    if is_zero k a then a else fst (sub_c k c a)
+  else mod_n thr k b c.
+Definition sinv_mod (thr k : nat) (b c : ru k) : ru k :=
+  if is_neg k b then inv_mod thr k (fst (sub_c k c (neg k b))) c else inv_mod thr k b c.
+
 (* ---- Z-level wrappers: what is extracted and run against the implementation ---- *)
+(* conversions used by the wrappers: same functions as of_Z / val (ProofsBase: of_Zb_eq, valb_eq), written with
+   shifts so that the extracted code is linear in the operand size *)
+Fixpoint of_Zb (k : nat) (z : Z) : ru k :=
+  match k return ru k with
+  | O => modW z
+  | S k' => (of_Zb k' z, of_Zb k' (Z.shiftr z (nbits k')))
+  end.
+Fixpoint valb (k : nat) : ru k -> Z :=
+  match k return ru k -> Z with
+  | O => fun x => x
+  | S k' => fun x => valb k' (fst x) + Z.shiftl (valb k' (snd x)) (nbits k')
+  end.
 Definition zb (b : bool) : Z := b2z b.
-Definition addZ k b c := let '(a, r) := add_c k (of_Z k b) (of_Z k c) in (val k a, zb r).
-Definition add_wcZ k b c cy := let '(a, r) := add_wc k (of_Z k b) (of_Z k c) (negb (cy =? 0)) in (val k a, zb r).
-Definition add_wZ k b c := let '(a, r) := add_w k (of_Z k b) (c mod W) in (val k a, zb r).
-Definition add_1Z k b := let '(a, r) := add_1 k (of_Z k b) in (val k a, zb r).
-Definition subZ k b c := let '(a, r) := sub_c k (of_Z k b) (of_Z k c) in (val k a, zb r).
-Definition sub_wcZ k b c cy := let '(a, r) := sub_wc k (of_Z k b) (of_Z k c) (negb (cy =? 0)) in (val k a, zb r).
-Definition cmpZ k a b := cmp k (of_Z k a) (of_Z k b).
-Definition lmul_naiveZ thr k b c := let '(l, h) := lmul_naive thr k (of_Z k b) (of_Z k c) in (val k l, val k h).
-Definition lmul_karaZ thr k b c := let '(l, h) := lmul_kara thr k (of_Z k b) (of_Z k c) in (val k l, val k h).
-Definition lmulZ thr k b c := let '(l, h) := lmul thr k (of_Z k b) (of_Z k c) in (val k l, val k h).
-Definition laddmulZ thr k b c d := let '((l, h), r) := laddmul thr k (of_Z k b) (of_Z k c) (of_Z k d) in (val k l, val k h, zb r).
-Definition laddmul2Z thr k b c d := let '((l, h), r) := laddmul2 thr k (of_Z k b) (of_Z k c) (of_Z (S k) d) in (val k l, val k h, zb r).
-Definition mulZ thr k b c := val k (mul thr k (of_Z k b) (of_Z k c)).
-Definition addmulZ thr k a b c := val k (addmul thr k (of_Z k a) (of_Z k b) (of_Z k c)).
+Definition IN := of_Zb.
+Definition OUT := valb.
+Definition o2 k (p : ru k * bool) := (OUT k (fst p), zb (snd p)).
+Definition oo k (p : ru k * ru k) := (OUT k (fst p), OUT k (snd p)).
+Definition cyb (cy : Z) := negb (cy =? 0).
+Definition addZ k b c := o2 k (add_c k (IN k b) (IN k c)).
+Definition add_wcZ k b c cy := o2 k (add_wc k (IN k b) (IN k c) (cyb cy)).
+Definition add_wZ k b c := o2 k (add_w k (IN k b) (modW c)).
+Definition add_1Z k b := o2 k (add_1 k (IN k b)).
+Definition subZ k b c := o2 k (sub_c k (IN k b) (IN k c)).
+Definition sub_wcZ k b c cy := o2 k (sub_wc k (IN k b) (IN k c) (cyb cy)).
+Definition sub_wZ k b c := o2 k (sub_w k (IN k b) (modW c)).
+Definition sub_1Z k b := o2 k (sub_1 k (IN k b)).
+Definition cmpZ k a b := cmp k (IN k a) (IN k b).
+Definition lmul_naiveZ thr k b c := oo k (lmul_naive thr k (IN k b) (IN k c)).
+Definition lmul_karaZ thr k b c := oo k (lmul_kara thr k (IN k b) (IN k c)).
+Definition lmulZ thr k b c := oo k (lmul thr k (IN k b) (IN k c)).
+Definition laddmulZ thr k b c d := let '((l, h), r) := laddmul thr k (IN k b) (IN k c) (IN k d) in (OUT k l, OUT k h, zb r).
+Definition laddmul2Z thr k b c d := let '((l, h), r) := laddmul2 thr k (IN k b) (IN k c) (IN (S k) d) in (OUT k l, OUT k h, zb r).
+Definition mulZ thr k b c := OUT k (mul thr k (IN k b) (IN k c)).
+Definition addmulZ thr k a b c := OUT k (addmul thr k (IN k a) (IN k b) (IN k c)).
+Definition lmul_wZ k b c := let '(a, r) := lmul_w k (IN k b) (modW c) in (OUT k a, r).
+Definition lsquareZ thr k b := oo k (lsquare thr k (IN k b)).
+Definition squareZ thr k b := OUT k (square thr k (IN k b)).
+(* bit operations *)
+Definition lnotZ k a := OUT k (lnot k (IN k a)).
+Definition negZ k a := OUT k (neg k (IN k a)).
+Definition lorZ k a b := OUT k (lor_ k (IN k a) (IN k b)).
+Definition lxorZ k a b := OUT k (lxor_ k (IN k a) (IN k b)).
+Definition landZ k a b := OUT k (land_ k (IN k a) (IN k b)).
+Definition lor_wZ k a c := OUT k (bitop_w Z.lor k (IN k a) (modW c)).
+Definition lxor_wZ k a c := OUT k (bitop_w Z.lxor k (IN k a) (modW c)).
+Definition land_wZ k a c := OUT k (land_w k (IN k a) (modW c)).
+(* highest_bit, lowest_bit, set_highest_bit, set_lowest_bit, max_pow_two, fill_with_1 in one line *)
+Definition bitsZ k a :=
+  let x := IN k a in
+  (zb (highest_bit k x), zb (lowest_bit k x), (OUT k (set_highest_bit k x), OUT k (set_lowest_bit k x)), (OUT k (max_pow_two k), OUT k (ones k))).
+Definition limbZ k a l i := let x := IN k a in (OUT k (set_limb k x (modW l) i), get_limb k x i).
+(* shifts *)
+Definition shlZ k a d := OUT k (left_shift k (IN k a) d).
+Definition shrZ k a d := OUT k (right_shift k (IN k a) d).
+Definition shl1Z k a := o2 k (shl1 k (IN k a)).
+Definition shr1Z k a := o2 k (shr1 k (IN k a)).
+Definition shl_extZ k a d := OUT (S k) (left_shift_ext k (IN k a) d).
+Definition normZ k a := normalization k (IN k a).
+(* division *)
+Definition udivZ n1 n0 d := udiv_qrnnd (modW n1) (modW n0) (modW d).
+Definition div32Z thr k a2 a1 a0 b1 b0 :=
+  let '(q, r1, r0) := div32 thr k (IN k a2) (IN k a1) (IN k a0) (IN k b1) (IN k b0) in (OUT k q, OUT k r1, OUT k r0).
+Definition div21Z thr k ah al b := oo k (div21 thr k (IN k ah) (IN k al) (IN k b)).
+Definition divZ thr k a b := oo k (div thr k (IN k a) (IN k b)).
+Definition div_wZ thr k a b := let '(q, r) := div_w thr k (IN k a) (modW b) in (OUT k q, r).
+Definition mod_nZ thr k b n := OUT k (mod_n thr k (IN (S k) b) (IN k n)).
+Definition gcdZ thr k a b := OUT k (gcd thr k (IN k a) (IN k b)).
+Definition inv_modZ thr k b c := OUT k (inv_mod thr k (IN k b) (IN k c)).
+Definition bezout_modZ thr k c d := oo k (bezout_mod thr k (IN k c) (IN k d)).
+Definition exp_modZ thr k b c n := OUT k (exp_mod thr k (IN k b) (IN k c) (IN k n)).
+Definition exp_mod_wZ thr k b c n := OUT k (exp_mod_w thr k (IN k b) (modW c) (IN k n)).
+Definition arazi_qiZ thr k a := OUT k (arazi_qi thr k (IN k a)).
+(* conversions *)
+Definition mpz_to_ruintZ k b := OUT k (mpz_to_ruint k b).
+Definition mpz_to_rintZ k b := OUT k (mpz_to_rint k b).
+Definition rint_to_mpzZ k a := rint_to_mpz k (IN k a).
+(* signed *)
+Definition sdiv_qZ thr k a b := OUT k (sdiv_q thr k (IN k a) (IN k b)).
+Definition sdiv_rZ thr k a b := OUT k (sdiv_r thr k (IN k a) (IN k b)).
+Definition slmulZ thr k b c := OUT (S k) (slmul thr k (IN k b) (IN k c)).
+Definition slsquareZ thr k b := OUT (S k) (slsquare thr k (IN k b)).
+Definition scmpZ k a b := scmp k (IN k a) (IN k b).
+Definition sextZ k a := OUT (S k) (sext k (IN k a)).
+Definition smod_nZ thr k b c := OUT k (smod_n thr k (IN (S k) b) (IN k c)).
+Definition sinv_modZ thr k b c := OUT k (sinv_mod thr k (IN k b) (IN k c)).
